@@ -63,7 +63,7 @@ impl Prop for C10 {
     fn strategy(_tier: Tier, _shard: u32) -> BoxedStrategy<Case> {
         any::<bool>()
             .prop_flat_map(|g| {
-                let inverse = (0usize..=12).prop_flat_map(move |n| {
+                let inverse = prop_oneof![16 => 0usize..=12, 1 => 13usize..=80].prop_flat_map(move |n| {
                     (
                         proptest::collection::vec(gen::nonws_unit(g), n),
                         proptest::collection::vec(any::<bool>(), n),
@@ -72,7 +72,7 @@ impl Prop for C10 {
                         .prop_map(|(chars, from, to)| Sub::Inverse { chars, from, to })
                 });
                 let text = if g { prop_oneof![3 => gen::stable_text(12), 2 => gen::text(8)].boxed() } else { gen::text(10).boxed() };
-                let rep = (text, proptest::collection::vec(0u8..3, 0..=40), prop_oneof![8 => Just(0i8), 1 => Just(1i8), 1 => Just(-1i8)], any::<bool>())
+                let rep = (prop_oneof![15 => text, 1 => gen::text(80)], proptest::collection::vec(0u8..3, 0..=40), prop_oneof![8 => Just(0i8), 1 => Just(1i8), 1 => Just(-1i8)], any::<bool>())
                     .prop_map(move |(s, mut ops, delta, all_keep)| {
                         let n = gen::clusters(&s, g).len();
                         let want = (n as isize + delta as isize).max(0) as usize;
